@@ -105,7 +105,23 @@ def run_case(c):
     worst_com = 0.0
     first_bad = None
     hist = []
-    it = mc.srun(c["steps"]) if drv in ("canonical", "hamiltonian") else mc.irun(c["steps"])
+    def segment(n):
+        return mc.srun(n) if drv in ("canonical", "hamiltonian") else mc.irun(n)
+
+    def between():
+        # the user prepares the system again between two runs of the same driver: everything is shifted rigidly (the references move along)
+        nonlocal x0, com0
+        d = np.array(c["user_shift"], dtype=float)
+        atoms.positions += d
+        x0 = x0 + d
+        com0 = com0 + d
+        return iter(())
+    if c.get("user_shift"):
+        s1 = max(1, c["steps"] // 2)
+        # (lazy: the second run is created only after the first is exhausted and the shift applied)
+        it = (y for gen in (lambda: segment(s1), between, lambda: segment(c["steps"] - s1)) for y in gen())
+    else:
+        it = segment(c["steps"])
     for k, _ in enumerate(it):
         if fixed and c["constraint"] == "fixatoms":
             d = float(np.max(np.abs(atoms.positions[fixed] - x0[fixed])))
